@@ -64,6 +64,9 @@ func (w *world) renderNotifs(ns []notif, rc renderCfg) []*gpb.Notification {
 		pn := &gpb.Notification{Timestamp: int64(1000 + i)}
 		if n.prefixLen > 0 {
 			pn.Prefix = model.PathProto(w.opElems(n.items[0].op)[:n.prefixLen])
+			if rc.legacyPrefix {
+				pn.Prefix = legacyPath(pn.Prefix)
+			}
 		}
 		for _, it := range n.items {
 			if it.leaf >= 0 {
@@ -375,7 +378,7 @@ func TestC23(t *testing.T) {
 		gc := genCfg{md: md}
 		req := w.genRequest(rt, gc)
 		it := w.intentOf(req)
-		rc := renderCfg{md: md, jo: model.JSONOpts{Prefix: rapid.Bool().Draw(rt, "json-prefix"), IdentPrefix: rapid.Bool().Draw(rt, "ident-prefix")}}
+		rc := renderCfg{md: md, jo: model.JSONOpts{Prefix: rapid.Bool().Draw(rt, "json-prefix"), IdentPrefix: rapid.Bool().Draw(rt, "ident-prefix")}, legacyPrefix: rapid.IntRange(0, 5).Draw(rt, "legacy-prefix") == 0}
 		written := map[int]bool{}
 		for _, l := range it.writes {
 			written[l] = true
